@@ -189,6 +189,11 @@ def filter_attr_lines(lines, log):
             log.append(f"R6 replace `{s}` by #[derive(Clone, Copy)]")
             out.append(re.match(r"^\s*", ln).group(0) + "#[derive(Clone, Copy)]")
             continue
+        if re.match(r"^\s*#\[error_code\]", ln):
+            # anchor's #[error_code] derives Debug/Clone/Copy (+ the numeric conversions, which are not modelled)
+            log.append(f"R6 replace `{s}` by #[derive(Debug, Clone, Copy)]")
+            out.append(re.match(r"^\s*", ln).group(0) + "#[derive(Debug, Clone, Copy)]")
+            continue
         if re.match(r"^\s*#\[account\]", ln):
             # anchor's #[account] derives AnchorSerialize/AnchorDeserialize/Clone and the discriminator impls
             log.append(f"R6 replace `{s}` by #[derive(Clone)]")
@@ -340,6 +345,17 @@ class Gen:
             elif cmd == "item":
                 src = Source.get(os.path.join(self.root, toks[0]))
                 self._emit_item(src, rx(toks[1]), name)
+            elif cmd == "seg":
+                # //@ seg <file> <fn> from=/re/ to=/re/   followed by the hand-written signature + contract, then //@ end
+                j = i + 1
+                block = []
+                while j < len(lines) and not lines[j].strip().startswith("//@ end"):
+                    block.append((j + 1, lines[j]))
+                    j += 1
+                self._emit_seg(toks, block, rel_tpl, i + 1)
+                i = j
+            elif cmd == "segcheck":
+                self._seg_check(toks, rel_tpl, i + 1)
             elif cmd == "fn":
                 # collect sub-block until //@ end
                 j = i + 1
@@ -525,6 +541,87 @@ class Gen:
                                    tags=tags, stub=bool(stub and body is not None), nodec=nodec,
                                    gen_start=gen_start, gen_end=len(self.out.lines),
                                    has_contract=any(t.strip() for _, t in contract)))
+
+    def _locate_fn(self, rel, name, in_re=None):
+        src = Source.get(rel)
+        lo, hi = 0, len(src.text)
+        if in_re:
+            r = src.find_block(in_re)
+            if r is None or r[1] is None:
+                raise Undecided(f"lost anchor: block /{in_re}/ not found in {rel}")
+            lo, hi = r[1] + 1, r[2] - 1
+        for m in re.finditer(r"\bfn\s+" + re.escape(name) + r"\b", src.mask[lo:hi]):
+            idx = lo + m.start()
+            if depth_at(src.mask, idx, lo, 0) == 0:
+                ls = src.text.rfind("\n", 0, idx) + 1
+                r = src.find_block(r"\bfn\s+" + re.escape(name) + r"\b", lo=ls, hi=hi)
+                if r and r[1] is not None:
+                    return src, r
+        raise Undecided(f"lost anchor: fn {name} not found in {rel}")
+
+    def _emit_seg(self, toks, block, rel_tpl, tpl_line):
+        """A contiguous run of statements of a straight-line function body, wrapped as its own function
+        `fn seg(..., ratio_in) -> ratio_out { let mut <var> = <var>_in; <statements verbatim> <var> }` so that a long
+        function can be verified piecewise (SMT time was exponential in the chain length). //@ segcheck proves the
+        declared segments tile the body without gap or overlap."""
+        rel = os.path.join(self.root, toks[0])
+        name = toks[1]
+        opts = dict(t.split("=", 1) for t in toks[2:] if "=" in t)
+        src, (b, ob, e) = self._locate_fn(rel, name)
+        body = src.text[ob + 1:e - 1]
+        mask = src.mask[ob + 1:e - 1]
+        m0 = re.search(rx(opts["from"]), mask, re.M)
+        to_end = opts["to"] == "END"
+        m1 = None if to_end else re.search(rx(opts["to"]), mask, re.M)
+        if not m0 or (not m1 and not to_end):
+            raise Undecided(f"lost anchor: segment anchors in {rel}::{name} ({rel_tpl}:{tpl_line})")
+        s0 = body.rfind("\n", 0, m0.start()) + 1
+        s1 = len(body) if to_end else body.rfind("\n", 0, m1.start()) + 1
+        if s1 <= s0:
+            raise Undecided(f"segment anchors out of order in {rel}::{name} ({rel_tpl}:{tpl_line})")
+        seg = body[s0:s1]
+        var = opts.get("var", "ratio")
+        proof_lines = []
+        if any(tx.strip().startswith("//@ proof") for (_, tx) in block):
+            k = next(i for i, (_, tx) in enumerate(block) if tx.strip().startswith("//@ proof"))
+            proof_lines = block[k + 1:]
+            block = block[:k]
+            check_ghost_only(proof_lines, rel_tpl)
+        header = [tx for (_, tx) in block]
+        sig_name = re.search(r"fn\s+(\w+)", "\n".join(header)).group(1)
+        tags = list(self.tags)
+        gen_start = len(self.out.lines) + 1
+        for (tl, tx) in block:
+            self.out.emit(tx, ("tpl", rel_tpl, tl), self._clause_tags(tx, tags), sig_name)
+        self.out.emit("{", None, tags, sig_name)
+        self.out.emit(f"    let mut {var} = {var}_in;", None, tags, sig_name)
+        for (tl, tx) in proof_lines:
+            self.out.emit(tx, ("tpl", rel_tpl, tl), tags, sig_name)
+        base_line = line_of(src.text, ob + 1 + s0)
+        self.out.emit(seg.rstrip("\n"), ("repo", src.rel, base_line), tags, sig_name)
+        if not to_end:
+            self.out.emit(f"    {var}", None, tags, sig_name)
+        self.out.emit("}", None, tags, sig_name)
+        self.segments = getattr(self, "segments", {})
+        self.segments.setdefault((rel, name), []).append((s0, s1, sig_name))
+        self.functions.append(dict(kind="fn", name=sig_name, file=src.rel, lines=[base_line, base_line + seg.count("\n")],
+                                   sha=hashlib.sha256(seg.encode()).hexdigest()[:16], tags=tags, stub=False, nodec=False,
+                                   gen_start=gen_start, gen_end=len(self.out.lines), has_contract=True, segment_of=name))
+
+    def _seg_check(self, toks, rel_tpl, tpl_line):
+        rel = os.path.join(self.root, toks[0])
+        name = toks[1]
+        segs = sorted(getattr(self, "segments", {}).get((rel, name), []))
+        if not segs:
+            raise Undecided(f"{rel_tpl}:{tpl_line}: no segments declared for {name}")
+        for (a, b) in zip(segs, segs[1:]):
+            if a[1] != b[0]:
+                raise Undecided(f"segments {a[2]} and {b[2]} of {rel}::{name} do not tile the body (gap or overlap)")
+        src, (b0, ob, e) = self._locate_fn(rel, name)
+        body = src.text[ob + 1:e - 1]
+        pre = " ".join(body[:segs[0][0]].split())
+        post = " ".join(body[segs[-1][1]:].split())
+        self.log.append(f"SEGMENTS of {rel}::{name}: {[s[2] for s in segs]} tile the body; prefix=`{pre[:200]}` suffix=`{post[:120]}` (sequential composition of the segment contracts is the assumed step)")
 
     @staticmethod
     def _clause_tags(tx, tags):
